@@ -15,6 +15,7 @@ from pest.grammar import Repeat
 from pest.grammar import Rule
 from pest.grammar.expressions import OptimizedChoiceRepeat
 from pest.grammar.rule import SILENT
+from pest.grammar.rule import BuiltInRule
 from pest.grammar.rule import SILENT_ATOMIC
 
 from .expression import Expression
@@ -95,6 +96,12 @@ class Optimizer:
                 continue
 
             for name, rule in rules.items():
+                if isinstance(rule, BuiltInRule):
+                    # Built-in rule objects are shared by every parser in the
+                    # process; rewriting them here would change the behaviour of
+                    # parsers built without an optimizer.
+                    continue
+
                 # TODO: some passes should only be applied to atomic rules
                 expr = rule.expression
 
